@@ -243,36 +243,88 @@ def build_harness(release=False, rustflags=None, fam=None, features=None):
     return rc == 0, binp, (errs or out[-3000:])
 
 
-def run_lines(binary, lines, shards=None, timeout=1800, args=()):
-    """feeds case lines to a line-oriented runner; returns the output lines (same length)"""
+def run_lines(binary, lines, shards=None, timeout=1800, args=(), stall=None, per=200):
+    """feeds case lines to a line-oriented runner (one answer line per case line, in order); returns the answer lines.
+    A process that dies only costs the line it was working on (`CRASH ...`), the rest of the shard goes to a fresh
+    process.  For binaries that flush every answer (the Rust harnesses: detected by their path, or stall= given), a
+    case that produces no answer within `stall` seconds is answered `HANG ...`, the process is killed and the rest of
+    the shard restarted -- so a decoder that loops forever is reported with its input instead of stalling the check."""
+    import threading, queue
     if not lines:
         return []
-    shards = shards or min(NPROC, max(1, len(lines) // 200))
-    chunks = [lines[i::shards] for i in range(shards)]
-    procs = []
-    for ch in chunks:
-        p = subprocess.Popen([binary] + list(args), stdin=subprocess.PIPE, stdout=subprocess.PIPE,
-                             stderr=subprocess.DEVNULL, text=True, env=ENV)
-        procs.append(p)
-    outs = []
-    import threading
-    results = [None] * shards
-    def work(i):
-        try:
-            o, _ = procs[i].communicate("\n".join(chunks[i]) + "\n", timeout=timeout)
-            results[i] = o.split("\n")
-        except subprocess.TimeoutExpired:
-            procs[i].kill()
-            results[i] = []
-    ths = [threading.Thread(target=work, args=(i,)) for i in range(shards)]
+    if stall is None and os.sep + "target" in binary:
+        stall = float(os.environ.get("PV_STALL_S", "30"))
+    shards = shards or min(NPROC, max(1, len(lines) // per))
+    idx = [list(range(i, len(lines), shards)) for i in range(shards)]
+    out = [None] * len(lines)
+    deadline = time.time() + timeout
+    hangs = [0]
+
+    def work(ix):
+        pos, restarts = 0, 0
+        while pos < len(ix):
+            if hangs[0] >= 6:
+                # every hang costs `stall` seconds: after a handful the point is made
+                for j in ix[pos:]:
+                    out[j] = "HANG (not run: the runner had stopped answering on 6 earlier cases of this batch)"
+                return
+            if restarts > 200 or time.time() > deadline:
+                for j in ix[pos:]:
+                    out[j] = "CRASH runner produced no output (too many restarts or overall timeout)"
+                return
+            chunk = ix[pos:]
+            p = subprocess.Popen([binary] + list(args), stdin=subprocess.PIPE, stdout=subprocess.PIPE,
+                                 stderr=subprocess.DEVNULL, text=True, env=ENV)
+            q = queue.Queue()
+
+            def feed():
+                try:
+                    p.stdin.write("\n".join(lines[j] for j in chunk) + "\n")
+                    p.stdin.close()
+                except (BrokenPipeError, OSError, ValueError):
+                    pass
+
+            def drain():
+                try:
+                    for ln in p.stdout:
+                        q.put(ln.rstrip("\n"))
+                except (OSError, ValueError):
+                    pass
+                q.put(None)
+            tf = threading.Thread(target=feed, daemon=True); tf.start()
+            td = threading.Thread(target=drain, daemon=True); td.start()
+            k = 0
+            verdict = None
+            while k < len(chunk):
+                wait = stall if stall is not None else max(1.0, deadline - time.time())
+                try:
+                    ln = q.get(timeout=wait)
+                except queue.Empty:
+                    verdict = ("HANG no answer within %d s (process killed)" % wait) if stall is not None else \
+                        "CRASH runner produced no output (crash, abort or timeout)"
+                    if stall is not None:
+                        hangs[0] += 1
+                    break
+                if ln is None:
+                    rc = p.wait()
+                    verdict = "CRASH process died (exit %s)" % rc
+                    break
+                out[chunk[k]] = ln
+                k += 1
+            try:
+                p.kill()
+            except OSError:
+                pass
+            p.wait()
+            if k < len(chunk):
+                out[chunk[k]] = verdict or "CRASH runner produced no output"
+                k += 1
+                restarts += 1
+            pos += k
+    ths = [threading.Thread(target=work, args=(ix,)) for ix in idx]
     for t in ths: t.start()
     for t in ths: t.join()
-    out = [None] * len(lines)
-    for i in range(shards):
-        r = results[i]
-        for j, _ in enumerate(chunks[i]):
-            out[i + j * shards] = r[j] if j < len(r) else "CRASH runner produced no output (crash, abort or timeout)"
-    return out
+    return [o if o is not None else "CRASH runner produced no output (crash, abort or timeout)" for o in out]
 
 
 class Check:
